@@ -65,11 +65,26 @@ static arr_real make_window(int kind, int n) {
         return W::blackmanharris(n);
     case 6:
         return W::gauss(n);
-    default:
+    case 7:
         return W::cosine(n);
+    case 8: {
+        //flat-top: a custom window with negative coefficients
+        arr_real w(n);
+        for (int i = 0; i < n; ++i) {
+            const double t = 2 * 3.14159265358979323846 * i / (n - 1);
+            w[i] = 0.21557895 - 0.41663158 * std::cos(t) + 0.277263158 * std::cos(2 * t) - 0.083578947 * std::cos(3 * t) + 0.006947368 * std::cos(4 * t);
+        }
+        return w;
+    }
+    case 9:
+        return W::tukey(n, 0.5);     //zero-ended like hann, different inside
+    case 10:
+        return W::tukey(n, 0.25);
+    default:
+        return W::hann(n) * 0.7;     //a scaled copy: same shape, same end taps as hann, other normaliser
     }
 }
-static const char* WKN[] = {"hamming", "hann", "blackman", "rect", "kaiser6", "blackmanharris", "gauss", "cosine"};
+static const char* WKN[] = {"hamming", "hann", "blackman", "rect", "kaiser6", "blackmanharris", "gauss", "cosine", "flattop(custom)", "tukey0.5", "tukey0.25", "0.7*hann"};
 
 static bool check_axis(const arr_real& f, int nfft, bool cplx, const std::string& cfg) {
     const int want = cplx ? nfft : nfft / 2 + 1;
@@ -221,7 +236,11 @@ static void check_tone(int nfft, int wl, int wk, bool cplx, vh::Rng& r, int sub)
         hh.s(cfg);
         vh::count(hh.get(), true);
         if (nfft >= 16 && (cplx || (kbin >= 2 && kbin <= nfft / 2 - 2))) {
-            const double pk = dl::max(res.pxx);
+            //a flat-top window's transform ripples slightly ABOVE its value at 0 next to the centre, so with zero padding the maximum of
+            //the estimate is not at the tone's bin; for that window the value at the tone's own bin is judged (complex estimates are
+            //stored in transform order: bin k at index k mod nfft)
+            const int tone_index = cplx ? ((kbin % nfft) + nfft) % nfft : kbin;
+            const double pk = (wk == 8 && tone_index < res.pxx.size()) ? res.pxx[tone_index] : dl::max(res.pxx);
             const ld want = cplx ? ld(A) * A : ld(A) * A / 2;
             ld tol = 1e-9L;
             bool judge = true;
@@ -248,6 +267,10 @@ static void check_tone(int nfft, int wl, int wk, bool cplx, vh::Rng& r, int sub)
         const int fine = 8 * nfft;
         if (!cplx && nfft < 16) {
             return;   //no room between the excluded zones around 0 and 0.5
+        }
+        if (wk == 8) {
+            vh::skip("flat_top_main_lobe_too_flat_for_the_nearest_bin_rule");
+            return;   //a flat-top window's main lobe is level to 0.01 dB over a bin: neighbouring bins tie within rounding
         }
         int q;
         if (cplx) {
@@ -431,7 +454,7 @@ int main(int argc, char** argv) {
                 //window lengths <= nfft
                 std::vector<int> wls = {nfft, std::max(3, nfft / 2 + 1), int(r.range(3, nfft))};
                 for (int wl : wls) {
-                    const int wk = int(r.below(8));
+                    const int wk = int(r.below(12));
                     //overlaps: 0, wl/2, wl-1 and random
                     std::vector<int> ovs = {0, wl / 2, int(r.below(wl))};
                     if (nfft <= 256) {
@@ -452,15 +475,38 @@ int main(int argc, char** argv) {
                     check_welch_random(nf, wl, wl / 2, wk, cplx != 0, r.coin(), wl * 4 + 3, r, true);
                     const int tones = (nfft <= 512) ? (thorough ? 12 : 5) : 2;
                     for (int t = 0; t < tones; ++t) {
-                        check_tone(nfft, wl, int(r.below(8)), cplx != 0, r, t);
+                        check_tone(nfft, wl, int(r.below(12)), cplx != 0, r, t);
                     }
                 }
                 if (cplx == 0) {
-                    check_mscohere(nfft, std::max(3, nfft / 2), int(r.below(8)), r);
+                    check_mscohere(nfft, std::max(3, nfft / 2), int(r.below(12)), r);
                     if (nfft <= 1024) {
-                        check_mscohere(nfft, nfft, int(r.below(8)), r);
+                        check_mscohere(nfft, nfft, int(r.below(12)), r);
                     }
                 }
+            }
+        }
+    }
+    //---- call histories: consecutive estimates in one thread with windows of the SAME length that share their end taps (hann, tukey,
+    //scaled hann, blackman, flat-top) and alternate scaling types - each compared with the long-double estimate as usual
+    {
+        const int nh = thorough ? 300 : 40;
+        for (int hidx = 0; hidx < nh; ++hidx) {
+            if (!vh::mine(idx++)) {
+                continue;
+            }
+            vh::Rng r = vh::rng_for("welchhist", hidx);
+            const int nfft = 1 << int(r.range(4, 9));
+            const int wl = (r.coin()) ? nfft : int(r.range(8, nfft));
+            const int ov = int(r.below(uint64_t(wl)));
+            const int order[8] = {1, 9, 10, 11, 2, 8, 1, 9};
+            const int steps = int(r.range(4, 8));
+            for (int st = 0; st < steps; ++st) {
+                const int wk = order[(st + hidx) % 8];
+                const int nseg = int(r.range(1, 12));
+                const int N = wl + (wl - ov) * (nseg - 1) + int(r.below(uint64_t(wl - ov)));
+                check_welch_random(nfft, wl, ov, wk, r.coin(), r.coin(), N, r, false);
+                vh::obs_add("welch_history_calls");
             }
         }
     }
